@@ -193,6 +193,7 @@ def run_case(case):
     refs = [reference(G, names) for G, names, _ in graphs]
     snaps = [snapshot(G) for G, _, _ in graphs]
     extractors = []
+    caller_lists = {}
     shared = {} if rng.random() < 0.4 else None
     if shared is not None:
         res.count("histories_with_one_parameter_dict_for_all_extractors")
@@ -205,14 +206,16 @@ def run_case(case):
             # slots, the vertices' excess tuples keep every slot
             used = list(names[: rng.randint(1, len(names) - 1)])
             res.count("extractors_with_a_prefix_of_the_names")
+        names_obj = list(used)      # the caller's own list object: handed to the extractor and, later, to other helpers of the library
         if shared is not None:
             # the caller fills ONE parameter dictionary again and again, one extractor after the other
             shared[TN.NETWORK] = G
-            shared[TN.EDGE_NAMES] = list(used)
+            shared[TN.EDGE_NAMES] = names_obj
             ex = sut("JointExcessJointDegree(params dict used before)", gcmpy.JointExcessJointDegree, shared)
         else:
-            ex = sut("JointExcessJointDegree(params)", gcmpy.JointExcessJointDegree, {TN.NETWORK: G, TN.EDGE_NAMES: list(used)})
+            ex = sut("JointExcessJointDegree(params)", gcmpy.JointExcessJointDegree, {TN.NETWORK: G, TN.EDGE_NAMES: names_obj})
         extractors.append((gi, ex, used))
+        caller_lists[len(extractors) - 1] = names_obj
     history = []
     for x, (gi, ex, _used) in enumerate(extractors):
         history += [x] * rng.choice([1, 2, 2, 3, 4])
@@ -272,6 +275,18 @@ def run_case(case):
                         earlier=repr(sorted((stale or aliased)[0][1].items()))[:300], now=repr(sorted(((stale or aliased)[0][0]).ejks.items()))[:300], ctx=ctx); break
         earlier.append((r, copy.deepcopy(ej), x))
         res.count("earlier_results_rechecked", len(earlier) - 1)
+        if rng.random() < 0.3:
+            # the pipeline the library's own rewiring test runs: matrices -> excess distributions -> joint degree distribution, with
+            # the caller's ONE list of topology names handed to every step; the extractor must not care what the other helpers do with it
+            try:
+                qk = gcmpy.JointExcessFromEjk.get_excess_joint_distributions(r)
+                gcmpy.JointDegreeFromExcess.get_joint_degree_distribution(qk, caller_lists[x])
+                res.count("pipeline_steps_given_the_caller's_names_list")
+            except Exception:
+                res.count("pipeline_steps_that_raised")
+            if list(caller_lists[x]) != list(used):
+                # not this property's business by itself; what the next extractions return is (they are compared as always)
+                res.count("caller's_names_list_was_reordered_by_another_helper")
         if not isinstance(ej, dict) or set(ej) != set(used):
             res.violate("matrices-not-keyed-by-the-topology-names", got=repr(list(ej))[:200] if isinstance(ej, dict) else repr(ej)[:100], ctx=ctx); break
         ok = True
